@@ -42,7 +42,7 @@ type guardedField struct {
 func checkC19(c *Ctx, p *Prog, r *Result) {
 	// ---- effect confinement ----
 	e := newE3(p, r, wireRoots, nil)
-	r.rule("C19.no-global-writes", "no function reachable from a wire entry point stores to a package-level variable or updates a package-level map")
+	r.rule("C19.no-global-writes", "no function reachable from a wire entry point stores to a package-level variable, updates a package-level map, or calls a mutating method (module method that stores through its receiver, math/big destination receiver, Write/Set/Reset/Add/Store-style stdlib method outside sync) on a package-level object")
 	r.floor("C19.no-global-writes", 400)
 	for _, fn := range e.order {
 		var bad []string
@@ -67,6 +67,12 @@ func checkC19(c *Ctx, p *Prog, r *Result) {
 				case *ssa.MapUpdate:
 					if pv := m.Prov(x.Map); pv.HasPrefix("global:fdo") && !pv.HasPrefix("param:") && !pv.HasPrefix("call:") {
 						bad = append(bad, "map update of a package-level map at "+p.instrPos(in))
+					}
+				}
+				// a package-level object used as the destination of a mutating method
+				if call, ok := in.(ssa.CallInstruction); ok && !call.Common().IsInvoke() {
+					if g := globalReceiver(call.Common()); g != nil && mutatesReceiver(p, call.Common()) {
+						bad = append(bad, "package-level "+g.Name()+" is the receiver of mutating method "+p.calleeOf(call.Common()).Name+" at "+p.instrPos(in))
 					}
 				}
 			}
@@ -364,4 +370,82 @@ func fieldIndex(t types.Type, name string) int {
 		}
 	}
 	return -1
+}
+
+// globalReceiver: the receiver of a method call is a package-level variable of
+// this module (its address, a field / element of it, or the pointer stored in it).
+func globalReceiver(c *ssa.CallCommon) *ssa.Global {
+	sc := c.StaticCallee()
+	if sc == nil || sc.Signature.Recv() == nil || len(c.Args) == 0 {
+		return nil
+	}
+	for v := c.Args[0]; v != nil; {
+		switch x := v.(type) {
+		case *ssa.Global:
+			if x.Pkg != nil && strings.HasPrefix(x.Pkg.Pkg.Path(), modulePath) {
+				return x
+			}
+			return nil
+		case *ssa.FieldAddr:
+			v = x.X
+		case *ssa.IndexAddr:
+			v = x.X
+		case *ssa.UnOp:
+			if x.Op != token.MUL {
+				return nil
+			}
+			v = x.X
+		default:
+			return nil
+		}
+	}
+	return nil
+}
+
+func mutatesReceiver(p *Prog, c *ssa.CallCommon) bool {
+	sc := c.StaticCallee()
+	recv := sc.Signature.Recv()
+	if _, ptr := recv.Type().Underlying().(*types.Pointer); !ptr {
+		return false
+	}
+	if body := p.body(sc); body != nil {
+		for _, b := range body.Blocks {
+			for _, in := range b.Instrs {
+				if st, ok := in.(*ssa.Store); ok {
+					for a := st.Addr; a != nil; {
+						switch y := a.(type) {
+						case *ssa.FieldAddr:
+							a = y.X
+						case *ssa.IndexAddr:
+							a = y.X
+						case *ssa.Parameter:
+							if y == body.Params[0] {
+								return true
+							}
+							a = nil
+						default:
+							a = nil
+						}
+					}
+				}
+			}
+		}
+		return false
+	}
+	pkg := ""
+	if sc.Pkg != nil {
+		pkg = sc.Pkg.Pkg.Path()
+	}
+	switch {
+	case pkg == "sync" || pkg == "sync/atomic" || pkg == "log/slog":
+		return false
+	case pkg == "math/big":
+		return recv.Name() == "z"
+	}
+	for _, pre := range []string{"Write", "Set", "Reset", "Add", "Store", "Grow", "Truncate"} {
+		if strings.HasPrefix(sc.Name(), pre) {
+			return true
+		}
+	}
+	return false
 }
